@@ -1201,7 +1201,9 @@ def run(ctx):
                  "casedir": os.path.join(base, "probe")}
         pr = run_real(pdsh, probe)
         splits = pr["hosts"] is not None and len(pr["hosts"]) > 1
-        mode = ("F%d" % linebuf) if splits else "W"
+        # F: every fgets piece parsed on its own (D12); G: the repaired reader AS WRITTEN — pieces of the same buffer
+        # glued until one holds a newline (byte-level model; Props/C10 `glued_pieces_whole`: = whole lines)
+        mode = ("F%d" % linebuf) if splits else ("G%d" % linebuf)
         # the small expander agrees with the real parser on the generator's expressions
         for e in EXPRS + ["w[2-3]", "v[1,4]z"]:
             word = e.split("#")[0].strip(" \t")
